@@ -1,7 +1,7 @@
 """X01 - specification coverage BEYOND the listed properties (not registered in MANIFEST.json; `./check X01`).
 The specifications keep growing to cover more of numqi's behaviour; parts that belong to none of C01..C20 are decided here, so
 that a defect in them can never be reported against a listed property.
-specs: specs/extra/{MC_Qudit,MC_SymplecticGS,MC_PauliOrbit,MC_SymBasis,MC_SchurWeyl,MC_GroupMisc,MC_ClosedGME,MC_IndexStore,MC_Query}.tla"""
+specs: specs/extra/{MC_Qudit,MC_SymplecticGS,MC_PauliOrbit,MC_SymBasis,MC_SchurWeyl,MC_GroupMisc,MC_ClosedGME,MC_IndexStore,MC_Query,MC_LocalBasis}.tla"""
 import itertools, math, random
 import numpy as np
 from .. import tlc, core
@@ -475,6 +475,25 @@ def run_query(ctx):
             ctx.violation('X01:query-%s:exception' % kind, type(ex).__name__ + ': ' + str(ex)[:160], data)
 
 
+def run_localbasis(ctx):
+    """MC_LocalBasis: the nearest-neighbour two-local Pauli operator basis of an open qubit chain, with and without the identity"""
+    import numqi
+    r = tlc.run('extra/MC_LocalBasis.tla', 'extra/MC_LocalBasis.cfg', dump=True, timeout=900)
+    ctx.add_model('MC_LocalBasis(n<=4)', r)
+    for st in tlc.parse_dump(r):
+        n, with_i = st['inst']['n'], bool(st['inst']['withI'])
+        data = dict(num_qubit=n, with_I=with_i)
+        ctx.case(('localbasis', n, with_i))
+        try:
+            got = np.asarray(numqi.maximum_entropy.get_1dchain_2local_pauli_basis(n, with_I=with_i))
+            want = np.array([[[complex(e[0], e[1]) for e in row] for row in m] for m in st['out']])
+            if got.shape != want.shape or core.gt(np.abs(got - want).max(), TOL):
+                ctx.violation('X01:get_1dchain_2local_pauli_basis:value', 'the operator list differs from the specification (order: bond, then Pauli pair II<IX<..<ZZ without II)', data)
+            ctx.traces += 1
+        except Exception as ex:
+            ctx.violation('X01:get_1dchain_2local_pauli_basis:exception', type(ex).__name__ + ': ' + str(ex)[:160], data)
+
+
 def run(ctx):
     quick = ctx.tier == 'quick'
     ctx.rule = ('beyond the listed properties: Weyl-Heisenberg matrices d = 2, 4, 8 (commutation, order, Fourier relation as TLC invariants); symplectic Gram-Schmidt over F2 for every list of '
@@ -491,6 +510,7 @@ def run(ctx):
     run_closed_gme(ctx)
     run_index_store(ctx, quick)
     run_query(ctx)
+    run_localbasis(ctx)
     ctx.sample(dict(kind='extra-models', models=[m['model'] for m in ctx.models]))
 
 
